@@ -14,6 +14,7 @@ from . import models
 
 HEXC = CC.of("0123456789abcdef")
 WORD = CC.of("abcdefghijklmnopqrstuvwxyzABCDEFGHIJKLMNOPQRSTUVWXYZ0123456789")
+LOWER = CC.of("abcdefghijklmnopqrstuvwxyz")
 NOSPECIAL = frozenset("\"'`()[]{}/#\\% \t\n\r,")
 
 
@@ -77,6 +78,14 @@ def classes_for(S, type_name: str, key: str, node: dict) -> list[VClass]:
                 if a.sub == "PLAIN":
                     add(VClass("STR_PADDED", padded, "QUOTED"))
                     add(VClass("STR_EMPTY", lambda q: "", "QUOTED"))
+                    # free text with one bracket / brace only: not a binding, not a list expression
+                    add(VClass("STR_HALF_BRACKET", lambda q: SStr([Atom("s", first=LOWER, last=WORD, excludes=frozenset("\"'`[](){}/"), free=True), "]"]), "QUOTED"))
+                    add(VClass("STR_HALF_BRACE", lambda q: SStr(["{", Atom("s", first=LOWER, last=WORD, excludes=frozenset("\"'`[](){}/"), free=True)]), "QUOTED"))
+                    # free text that merely looks like the tail of a case-insensitive regex / the head of a NOT
+                    # expression - in keywords that cannot hold expressions (for those that can, C01 excludes look-alikes)
+                    if not (has_expr or has_regex):
+                      add(VClass("STR_ENDS_QI", lambda q: SStr([Atom("s", first=LOWER, last=WORD, excludes=frozenset("\"'`"), free=True), ("'" if q == '"' else '"') + "i"]), "QUOTED"))
+                      add(VClass("STR_NOT_WORD", lambda q: SStr(["NOT ", Atom("s", first=WORD, last=WORD, excludes=frozenset("\"'`()"), free=True)]), "QUOTED"))
             elif a.sub == "HEX":
                 add(VClass("STR_HEX", lambda q: hexv(), "QUOTED"))
             elif a.sub == "BIND":
